@@ -17,6 +17,11 @@ def normOp (dst src : List UInt8) : String :=
   let v := Norm.valid T maxLen src
   s!"st={st} fb={showHex (Norm.force T maxLen src)} fs={showHex (Norm.forceStr T maxLen src)} v={b2s v}{b2s v}"
 
+def ipOp (cap : Nat) (src : List UInt8) : String :=
+  let arr := src ++ List.replicate (cap - src.length) (0xAA : UInt8)
+  let r := Norm.forceInPlace .buffered T maxLen arr src.length
+  s!"ip={showHex r.value} mem={showHex r.arr} alias={b2s r.aliased}"
+
 def showSigned32 (p : Nat) : String := toString (RawTag.asSigned 32 p)
 
 def rawOp (s : List UInt8) : String :=
@@ -33,6 +38,10 @@ def step (s : Unit) (toks : List String) : Unit × List String :=
   | ["norm", dst, src] =>
     match parseHex? dst, parseHex? src with
     | some d, some b => (s, [normOp d b])
+    | _, _ => (s, ["bad-op"])
+  | ["ip", cap, src] =>
+    match cap.toNat?, parseHex? src with
+    | some cap, some b => if cap < b.length then (s, ["bad-op"]) else (s, [ipOp cap b])
     | _, _ => (s, ["bad-op"])
   | ["raw", b] =>
     match parseHex? b with
